@@ -684,6 +684,7 @@ class AbstractExcelInPython(ABC):
             found_text = find_elem.group(0)
             find_text = find_text.replace('(.*)', '(.)') \
                 .replace(r'\?', '?') \
+                .replace(r'\*', '*') \
                 .replace(r'\.', '.')
             for sequence in sequences:
                 find_text = find_text.replace('(.)', sequence, 1)
